@@ -199,6 +199,9 @@ class ExprBuilder:
             return self.promoted(c["promoted"])
         if c.get("zst"):
             return ("zst", c["ty"])
+        if "f64_array" in c and c.get("ty", "").startswith("("):
+            # a constant tuple of floats (e.g. `const UNKNOWN: (f64, f64) = (-1.0, -1.0)`): its value
+            return ("agg", "tuple", tuple(("c", Fraction(float(v)), "f", d) for v in c["f64_array"]), ())
         if d:
             return ("constitem", d)
         if c.get("param"):
